@@ -2,6 +2,7 @@
    Property theorems only; proofs in Engine/{Strata,SemiNaive,StrataAgg,SemiNaiveAgg,Main}.v. *)
 From Coq Require Import List ZArith Bool.
 From AV Require Import Engine.Core Engine.Sem Engine.Eval Engine.Validate Engine.Naive Engine.Interface Engine.InterfaceAgg Engine.Main Engine.MainAgg Engine.SemiNaiveAgg.
+From AV Require Import Engine.ParStep Engine.InterfacePar Engine.MainPar.
 Import ListNotations.
 
 (* every input row is still there, unmodified and in place; evaluation appends only tuples that were absent, each once *)
@@ -23,8 +24,19 @@ Proof.
   exact (proj2 (proj2 (proj2 (run_plan_strat_correct_full I swap arities P pl fuel F0 st H1 H2 H3 H4 H5 H6)))).
 Qed.
 
-(* PARTIAL: the parallel half (every interleaving of workers deriving the same tuple / lattice key) is carried by
-   C19's theorems on the concurrent full index (exactly one insert_if_not_present winner per key: Props/C19.v
-   c19_cfi_concurrent_one_winner) and by the parallel tie; lattice keys are C03. *)
+(* parallel evaluation: for EVERY distribution of the derived facts over the workers and EVERY interleaving of
+   their atomic steps, in every iteration of every SCC: inputs kept in place, each new tuple appended exactly once
+   (exactly one insert_if_not_present succeeds per tuple, however many workers derive it at the same time) *)
+Theorem c05_parallel_rows_added_once : forall (I : interp) swap arities P pl F0 st,
+  arities_functional arities -> wf_facts arities F0 = true -> no_agg P = true ->
+  validate arities P pl = true ->
+  par_run_plan I swap pl (init_state F0) st ->
+  exists added, rows st = F0 ++ added /\ NoDup added /\ (forall f, In f added -> ~ In f F0).
+Proof. intros I swap arities P pl F0 st H1 H2 H3 H4 H5. exact (proj2 (par_run_correct_full I swap arities P pl F0 st H1 H2 H3 H4 H5)). Qed.
 
-Print Assumptions c05_inputs_kept_rows_added_once. Print Assumptions c05_rows_are_a_set.
+(* PARTIAL: lattice keys (one row per key, serial) are C03's c03_unique_key; the parallel lattice protocol (key
+   mutex + re-check) and parallel runs with aggregates are exercised by the ties of C02 / C05 but are not theorems;
+   the real DashMap entry operation is assumed atomic (C19 proves the one-winner property for every interleaving of
+   the modelled atomic steps: Props/C19.v c19_cfi_concurrent_one_winner). *)
+
+Print Assumptions c05_inputs_kept_rows_added_once. Print Assumptions c05_rows_are_a_set. Print Assumptions c05_parallel_rows_added_once.
